@@ -1,9 +1,14 @@
 (* Command dispatcher of the extracted engine. *)
 From Zorg Require Import Base.PyStr Base.Sexp Base.Res.
-From Zorg Require Import Model.FileGroups.
+From Zorg Require Import Model.FileGroups Model.Zid.
 
 Definition commands : list (str * (list sexp -> sexp)) :=
   [ (S "expand", cmd_expand)
+  ; (S "next_id", cmd_next_id)
+  ; (S "next_ids", cmd_next_ids)
+  ; (S "zid_hist", cmd_zid_hist)
+  ; (S "is_zid", cmd_is_zid)
+  ; (S "zid_chars", cmd_zid_chars)
   ].
 
 Fixpoint find_cmd (n : str) (l : list (str * (list sexp -> sexp))) : option (list sexp -> sexp) :=
